@@ -24,7 +24,7 @@ ASSUMPTIONS = [
 REQUIRED = ['complete_requested', 'nested_complete', 'descendant_cancelled', 'descendant_stopped', 'descendant_raised',
             'descendant_from_generator_step', 'several_roots_in_flight', 'complete_channels_override', 'closure_depth_3plus',
             'handler_suspended_in_call_or_wait', 'call_or_wait_timed_out_in_closure', 'suspended_again_right_after_timeout',
-            'driven_by_tick_from_the_calling_thread', 'manager_had_an_earlier_run', 'earlier_run_in_another_thread', 'earlier_run_ended_with_exit_code']
+            'feedback_event_handler_in_closure', 'derived_child_event_in_closure', 'driven_by_tick_from_the_calling_thread', 'manager_had_an_earlier_run', 'earlier_run_in_another_thread', 'earlier_run_ended_with_exit_code']
 REQUIRED_OBLIGATIONS = ['COMPLETE_ONCE', 'COMPLETE_AFTER_CLOSURE', 'COMPLETE_EVENTUALLY']
 WORKER_TIMEOUT = {'quick': 300, 'thorough': 1500}
 ENGINE = 'stepping-driver'
@@ -144,6 +144,11 @@ def evaluate(case, w):
         elif e[0] == 'F' and e[2] is not None and (e[2], e[3]) in resumed:
             from_gen_step.add(e[1])
     stopped = {e[1] for e in w.log if e[0] == 'STOP'}
+    for u_, inf_ in w.events.items():
+        if inf_.get('system') and inf_['parent'] is not None:
+            marks.add('feedback_event_handler_in_closure')
+        if inf_.get('derived'):
+            marks.add('derived_child_event_in_closure')
     susp = {}      # event -> [(log index, kind)] of its handlers' SUSP / RX entries
     for i, e in enumerate(w.log):
         if e[0] == 'SUSP':
@@ -268,6 +273,22 @@ def corpus():
     # generator raising in the closure
     cs.append({'name': 'gen-raise', 'handlers': [HD(1, 'a', [['fire', {'name': 'b'}]]), HD(2, 'b', [['yield', None], ['raise']], gen=True),
                                                  HD(3, 'b', [['fire', {'name': 'c'}]]), HD(4, 'c', [])], 'fires': [{'name': 'a', 'flags': C}]})
+    # consequences that run through feedback events and derived events: a failing descendant whose <name>_failure handler fires further
+    # events (the shape of circuits.web's request_failure -> error response), and handlers that fire event.child(...) events
+    F = {'failure': True}
+    cs.append({'name': 'failure-chain', 'handlers': [
+        HD(1, 'a', [['fire', {'name': 'b', 'flags': F}], ['fire', {'name': 'c'}]]), HD(2, 'b', [['raise']]), HD(3, 'b_failure', [['fire', {'name': 'c'}], ['fire', {'name': 'd'}]]),
+        HD(4, 'c', [['fire', {'name': 'd'}]]), HD(5, 'd', [['fire', {'name': 'e'}]]), HD(6, 'e', [])], 'fires': [{'name': 'a', 'flags': C}]})
+    cs.append({'name': 'failure-chain-gen', 'handlers': [
+        HD(1, 'a', [['fire', {'name': 'b', 'flags': F}]]), HD(2, 'b', [['yield', None], ['raise']], gen=True), HD(3, 'b_failure', [['fire', {'name': 'c'}]]),
+        HD(4, 'c', [['yield', None], ['fire', {'name': 'd'}]], gen=True), HD(5, 'd', [['fire', {'name': 'e'}]]), HD(6, 'e', [])], 'fires': [{'name': 'a', 'flags': C}, {'name': 'a', 'flags': C}]})
+    cs.append({'name': 'derived-chain', 'handlers': [
+        HD(1, 'a', [['firechild', 'part'], ['fire', {'name': 'c'}]]), HD(2, 'a_part', [['fire', {'name': 'c'}], ['firechild', 'sub']]), HD(3, 'a_part_sub', [['fire', {'name': 'd'}]]),
+        HD(4, 'c', [['fire', {'name': 'd'}]]), HD(5, 'd', [['fire', {'name': 'e'}]]), HD(6, 'e', [])], 'fires': [{'name': 'a', 'flags': C}]})
+    # (events fired by a <name>_success handler are not part of the closure of what caused <name>: only observed)
+    cs.append({'name': 'success-handler-fires', 'handlers': [
+        HD(1, 'a', [['fire', {'name': 'b', 'flags': {'success': True}}]]), HD(2, 'b', [['fire', {'name': 'c'}]]), HD(3, 'b_success', [['fire', {'name': 'd'}]]),
+        HD(4, 'c', []), HD(5, 'd', [['fire', {'name': 'e'}]]), HD(6, 'e', [])], 'fires': [{'name': 'a', 'flags': C}]})
     # the same programs on a manager with a past (an earlier run() in another thread / in this one, ended by stop() or an exit code),
     # run() again or driven by tick() from the calling thread
     for base in list(cs):
@@ -368,6 +389,20 @@ def gen_plain_case(rng):
                 if rng.random() < 0.12:
                     body.append(['raise'] if rng.random() < 0.75 else ['raise', 'base'])
                 handlers.append(HD(hid, nm, body, gen=gen, prio=rng.choice([0, 0, 1])))
+    if rng.random() < 0.3:
+        # failing descendants with a <name>_failure handler that fires on, and handlers that fire derived (child) events
+        deep = names[nlev - 1]
+        for h in list(handlers):
+            lv = next(l for l in names if h['name'] in names[l])
+            if lv + 1 < nlev and rng.random() < 0.3:
+                h['body'] = [a if not (a[0] == 'fire' and rng.random() < 0.6) else ['fire', dict(a[1], flags=dict(a[1].get('flags') or {}, failure=True))] for a in h['body']]
+            if lv >= 1 and rng.random() < 0.25 and not any(x['name'] == h['name'] + '_failure' for x in handlers):
+                hid += 1
+                handlers.append(HD(hid, h['name'] + '_failure', [['fire', {'name': rng.choice(deep)}]] * rng.randint(1, 2)))
+            if lv + 1 < nlev and rng.random() < 0.2 and not h['gen'] and not any(x['name'] == h['name'] + '_part' for x in handlers):
+                h['body'] = [['firechild', 'part']] + h['body']
+                hid += 1
+                handlers.append(HD(hid, h['name'] + '_part', [['fire', {'name': rng.choice(names[lv + 1])}]]))
     fires = []
     for _ in range(rng.randint(1, 3)):
         spec = {'name': rng.choice(names[rng.randint(0, min(1, nlev - 1))]), 'flags': dict(C) if rng.random() < 0.85 else {}}
